@@ -101,13 +101,22 @@ def gen_cfg(r, tier, idx):
 def gen_ops(r, cfg):
     ops = []
     nk = cfg['nkeys']
-    hot = r.random() < 0.3          # hit-dominated histories reach the lru compaction
+    hot = r.random() < 0.3          # hit-dominated histories
+    recent = []
     for _ in range(cfg['nops']):
         p = r.random()
         x = r.randrange(nk)
+        # a burst of hits on the most recently called keys, longer than 10*maxsize recorded uses:
+        # this is what it takes to reach lru's queue compaction
+        if cfg['maxsize'] <= 5 and recent and r.random() < 0.02:
+            pool = recent[-r.choice([1, 2, 3]):]
+            for _ in range(10 * cfg['maxsize'] + r.randrange(2, 9)):
+                ops.append(['call', r.choice(pool)])
+            continue
         if hot and r.random() < 0.7: x = x % 2
         if p < 0.74:
             ops.append(['call', x])
+            if x not in recent[-3:]: recent.append(x)
         elif p < 0.78:
             if cfg['malformed']: ops.append(['callbad', x])
             else: ops.append(['call', x])
